@@ -53,3 +53,21 @@ Definition reader_channel_order (nc : Z) g e sites split sort : option (list Z) 
   | Some None => reader_order nc None
   | None => None
   end.
+
+(* since /repo 569e533: in the no-map branch geometry_from_meta also returns no geometry when the
+   stream is a nidq one (`major_version is None or _get_type_from_meta(meta) == "nidq"`), so a
+   nidq file of the 3A era (which carries a neuropixel version) keeps the identity order *)
+Definition reader_geometry_t (nidq : bool) (g : option IBL.C08.Model.gen) (e : option IBL.C08.Model.encoding)
+           (sites : list IBL.C08.Model.site) (split : option Z) (sort : bool)
+  : option (option (IBL.C08.Model.geom * list Z)) :=
+  match e, sites with
+  | Some _, _ :: _ => reader_geometry g e sites split sort
+  | _, _ => if nidq then Some None else reader_geometry g e sites split sort
+  end.
+
+Definition reader_channel_order_t (nc : Z) (nidq : bool) g e sites split sort : option (list Z) :=
+  match reader_geometry_t nidq g e sites split sort with
+  | Some (Some (_, inds)) => reader_order nc (Some inds)
+  | Some None => reader_order nc None
+  | None => None
+  end.
